@@ -256,8 +256,10 @@ class JSONSerialization(Serialization):
     @classmethod
     def selector_schema(cls, p, safe=False):
         try:
+            # iterate over the objects themselves: for a Selector declared
+            # with a dictionary, .values() only yields the named objects
             allowed_types = [{'type': cls.json_schema_literal_types[type(obj)]}
-                             for obj in p.objects.values()]
+                             for obj in p.objects]
             schema = {'anyOf': allowed_types}
             schema['enum'] = p.objects
             return schema
